@@ -129,6 +129,7 @@ type World struct {
 	onErrors                int
 	persistOK               int // successful LowerLevelUpdate rounds (store backing: Persist returned nil)
 	reopenCount             int
+	outcome                 string // G2: observable outcome of this execution
 	lastAttempts            int
 	lastReopenDump          string
 
